@@ -365,6 +365,9 @@ func concurrentFirstUse(r *mon.Run, nFresh, workers int) {
 							sc, err = vgirpc.SchemaForStruct(f.t)
 						}
 					}()
+					if err == nil && sc == nil {
+						err = fmt.Errorf("nil schema without an error")
+					}
 					if err != nil {
 						out[w][j] = res{err: err.Error()}
 						continue
